@@ -35,6 +35,17 @@ def run(ctx):
     rep.rule("C07.R6", "Revolute as scalar subsystem: angle l and rate l_dot / force direction W_l are oriented about the same axis (else power = +dE/dt)", 4)
     from .c25 import orientation_rule
     orientation_rule(ctx, "C07.R6")
+    rep.rule("C07.R7", "dependence monotonicity (K13): the generalized force of a conservative element reads no datum (quadrature rule, stiffness, reference) its energy does not read", 5)
+    from .. import depmono
+    for cname_, pairs_ in (("Force_line_distributed", [("E_pot_el", "h_el")]), ("Force", [("E_pot", "h")]), ("Spring", [("_E_pot", "_la_c")]),
+                           ("MaxwellElement", [("E_pot", "h")]), ("CosseratRodDisplacementBased", [("E_pot_el", "f_int_el")])):
+        ci_ = ctx.model.cls(cname_)
+        v_ = protocol.ClassView(ctx, ci_, ctx.model.variants(ci_)[0])
+        for p_, d_ in pairs_:
+            c_, f_ = v_.method(d_)
+            if f_ is None:
+                raise AnalysisError(f"{cname_}.{d_} vanished")
+            depmono.check(rep, "C07.R7", v_, ci_.rel, cname_, p_, d_, lineno=f_.lineno)
     rep.rule("C07.R5", "energy, force direction and Jacobian of one force element refer to the same material point (xi, B_r_CP)", 4)
     owners = []
     for ci in ctx.model.all_classes():
@@ -197,6 +208,9 @@ MUTANTS += [
          new="        self.v_P2 = lambda t, q, u: self.subsystem2.v_P(\n            t, q[self._nq1 :], u[self._nu1 :], self.xi2\n        )", expect="C07.R5"),
 ]
 MUTANTS += [
+    dict(id="c07-r7-seed", canary=True, what="[seeded by sub-agent] Force_line_distributed.h_el integrates with the dynamics quadrature, E_pot_el with the static one", file="cardillo/rods/force_line_distributed.py",
+         old="        he = np.zeros(self.rod.nu_element, dtype=float)\n\n        for i in range(self.rod.nquadrature):\n            # extract reference state variables\n            qpi = self.rod.qp[el, i]\n            qwi = self.rod.qw[el, i]\n            Ji = self.rod.J[el, i]",
+         new="        he = np.zeros(self.rod.nu_element, dtype=float)\n\n        for i in range(self.rod.nquadrature_dyn):\n            # extract reference state variables\n            qpi = self.rod.qp_dyn[el, i]\n            qwi = self.rod.qw_dyn[el, i]\n            Ji = self.rod.J_dyn[el, i]", expect="C07.R7"),
     dict(id="c07-r6-seed", canary=True, what="[seeded by sub-agent] Revolute.plane_axes = np.delete((0, 1, 2), axis): left-handed pair for axis = 1", file="cardillo/constraints/revolute.py",
          old="        self.plane_axes = np.roll([0, 1, 2], -axis)[1:]", new="        self.plane_axes = np.delete((0, 1, 2), axis)", expect="C07.R6"),
 ]
